@@ -2,9 +2,9 @@
 # usage: seed_collect.sh <Cxx> <A|B>
 # Confirms a sub-agent's mutation in a scratch worktree of /repo HEAD (patch applies, baseline suite still
 # passes, the demonstration fails with the change and passes without) and stores it under /verif/seeded/.
-P="$1"; V="$2"
-SRC="/tmp/seed/$P/_seed_out"
-OUT="/verif/seeded/$P$V"
+P="$1"; V="$2"; ROOT="${3:-/tmp/seed}"; NAME="${4:-$V}"
+SRC="$ROOT/$P/_seed_out"
+OUT="/verif/seeded/$P$NAME"
 WT="$(mktemp -d /tmp/wt_seed.XXXXXX)"
 git -C /repo worktree add -q --detach "$WT" HEAD || exit 2
 cd "$WT"
@@ -19,7 +19,7 @@ if [ "$status" = "ok" ]; then
   [ $rc_mut -eq 0 ] && status="demo-passes-with-mutation"
   [ $rc_base -ne 0 ] && status="baseline-broken"
 fi
-echo "$P$V: $status (demo clean rc=$rc_clean, mutated rc=${rc_mut:-NA}, baseline rc=${rc_base:-NA})"
+echo "$P$NAME: $status (demo clean rc=$rc_clean, mutated rc=${rc_mut:-NA}, baseline rc=${rc_base:-NA})"
 if [ "$status" = "ok" ]; then
   mkdir -p "$OUT"
   cp "$WT/_patch.diff" "$OUT/patch.diff"
